@@ -143,7 +143,7 @@ op_st = st.one_of(
     st.tuples(st.just('save'), st.sampled_from(STAGES)), st.tuples(st.just('save'), st.sampled_from(STAGES)),
     st.tuples(st.just('close_restart'), st.sampled_from(STAGES)),
     st.tuples(st.just('crash')),
-    st.tuples(st.just('del'), st.integers(0, 5)),
+    st.tuples(st.just('del'), st.sampled_from([0, 1, 2, 3, 4, 5, -1, -1])),
 ).map(list)
 case_st = st.fixed_dictionaries({
     'mode': st.sampled_from(['txt', 'json', 'binl']),
@@ -262,6 +262,26 @@ def enum_cases(tier):
                         ops = [['w', 12]] * 3 + [['r'], ['r']] + [['close_restart' if closing and which == 0 else 'save', stage if which == 0 else 'none']] + \
                               [['w', 12]] * 2 + [['r'], ['r']] + [['close_restart' if closing and which == 1 else 'save', stage if which == 1 else 'none']] + [['r']] * 3
                         yield {'mode': mode, 'file_size': fs, 'total_size': 10**9, 'ops': ops}
+
+
+def _with_deleted_newest(tier):
+    """Skeleton: the reader has consumed the newest file, that file is deleted externally, the reader restarts / saves with nothing to read,
+    the writer goes on, the reader restarts again: what was written after must arrive."""
+    for mode in ('txt', 'json', 'binl'):
+        for fs in (1, 25):
+            for mid in (['crash'], ['close_restart', 'none'], ['save', 'none']):
+                for again in (['crash'], ['close_restart', 'none']):
+                    for stage in ('none', 'after_close', 'os_before:0'):
+                        ops = [['w', 12]] * 3 + [['r']] * 4 + [['save', 'none'], ['del', -1], mid, ['r'], ['save', stage], ['w', 12], ['w', 12], again] + [['r']] * 4
+                        yield {'mode': mode, 'file_size': fs, 'total_size': 10**9, 'ops': ops}
+
+
+_enum_cases_base = enum_cases
+
+
+def enum_cases(tier):
+    yield from _enum_cases_base(tier)
+    yield from _with_deleted_newest(tier)
 
 
 PARTS = [
